@@ -4,3 +4,4 @@ pub mod wire;
 pub mod cmdgen;
 pub mod linz;
 pub mod cluster;
+pub mod refredis;
